@@ -19,7 +19,7 @@ import sys
 
 HERE = os.path.dirname(os.path.abspath(__file__))
 OUT = os.path.join(os.path.dirname(HERE), "lean", "Astral", "Gen", "Effects.lean")
-SRC = "/repo/src/astral"
+SRC = os.path.join(os.environ.get("VERIF_REPO", "/repo"), "src", "astral")
 
 MUTATORS = {"append", "extend", "insert", "pop", "remove", "clear", "update", "setdefault", "sort",
             "reverse", "add", "discard", "__setitem__", "__delitem__", "popitem", "__setattr__"}
